@@ -231,7 +231,7 @@ def run_program(pc, ctx, control_every):
 
 
 def shards(tier, seed):
-    n, per, mx = (16, 8, 24) if tier == "quick" else (64, 60, 40)
+    n, per, mx = (16, 8, 24) if tier == "quick" else (64, 25, 40)
     return [{"n": per, "max_ops": mx, "seed": seed * 1000 + i} for i in range(n)]
 
 
